@@ -1157,6 +1157,92 @@ func callName(c *ssa.CallCommon) string {
 	return c.Value.Name()
 }
 
+// bounds of simple terms (sym, sym +/- literal, literal) from the literal comparisons in the path condition
+func (st *State) bounds(t *Term) (lo, hi *big.Int) {
+	if t.IsLit() {
+		return t.Lit, t.Lit
+	}
+	if t.kind == tApp && (t.Op == "+" || t.Op == "-") && len(t.Args) == 2 && t.Args[1].IsLit() {
+		l, h := st.bounds(t.Args[0])
+		c := t.Args[1].Lit
+		if t.Op == "-" {
+			c = new(big.Int).Neg(c)
+		}
+		if l != nil {
+			lo = new(big.Int).Add(l, c)
+		}
+		if h != nil {
+			hi = new(big.Int).Add(h, c)
+		}
+		return
+	}
+	upd := func(cur *big.Int, v *big.Int, isLo bool) *big.Int {
+		if cur == nil || (isLo && v.Cmp(cur) > 0) || (!isLo && v.Cmp(cur) < 0) {
+			return v
+		}
+		return cur
+	}
+	var scan func(p *Term)
+	scan = func(p *Term) {
+		if p.kind != tApp {
+			return
+		}
+		if p.Op == "and" {
+			for _, a := range p.Args {
+				scan(a)
+			}
+			return
+		}
+		if len(p.Args) != 2 {
+			return
+		}
+		a, b := p.Args[0], p.Args[1]
+		one := big.NewInt(1)
+		switch {
+		case a == t && b.IsLit():
+			switch p.Op {
+			case ">=":
+				lo = upd(lo, b.Lit, true)
+			case ">":
+				lo = upd(lo, new(big.Int).Add(b.Lit, one), true)
+			case "<=":
+				hi = upd(hi, b.Lit, false)
+			case "<":
+				hi = upd(hi, new(big.Int).Sub(b.Lit, one), false)
+			case "=":
+				lo, hi = upd(lo, b.Lit, true), upd(hi, b.Lit, false)
+			}
+		case b == t && a.IsLit():
+			switch p.Op {
+			case "<=":
+				lo = upd(lo, a.Lit, true)
+			case "<":
+				lo = upd(lo, new(big.Int).Add(a.Lit, one), true)
+			case ">=":
+				hi = upd(hi, a.Lit, false)
+			case ">":
+				hi = upd(hi, new(big.Int).Sub(a.Lit, one), false)
+			}
+		}
+	}
+	for _, p := range st.pc {
+		scan(p)
+	}
+	return
+}
+
+// wrapIn is wrap with knowledge of the path condition: no wrap-around term when the bounds exclude it.
+func (x *Exec) wrapIn(st *State, t *Term, typ types.Type) *Term {
+	lo, hi := intRange(typ)
+	if lo == nil || t.IsLit() {
+		return x.wrap(t, typ)
+	}
+	if l, h := st.bounds(t); l != nil && h != nil && l.Cmp(lo) >= 0 && h.Cmp(hi) <= 0 {
+		return t
+	}
+	return x.wrap(t, typ)
+}
+
 // wrap applies machine-integer wrap-around for typed integers.
 func (x *Exec) wrap(t *Term, typ types.Type) *Term {
 	lo, hi := intRange(typ)
@@ -1256,9 +1342,9 @@ func (x *Exec) binop(f *Frame, st *State, in *ssa.BinOp) (Val, bool) {
 	}
 	switch in.Op {
 	case token.ADD:
-		return x.wrap(Add(at, bt), typ), true
+		return x.wrapIn(st, Add(at, bt), typ), true
 	case token.SUB:
-		return x.wrap(Sub(at, bt), typ), true
+		return x.wrapIn(st, Sub(at, bt), typ), true
 	case token.MUL:
 		return x.wrapMod(Mul(at, bt), typ), true
 	case token.QUO:
@@ -1400,6 +1486,9 @@ func (x *Exec) sliceTerm(f *Frame, st *State, v *Term, lo, hi *Term, in *ssa.Sli
 		}
 		if lo == nil && hi == nil {
 			return v
+		}
+		if hi != nil && hi.IsLit() && hi.Lit.Sign() == 0 && (lo == nil || (lo.IsLit() && lo.Lit.Sign() == 0)) {
+			return BytesNil // b[:0] is empty
 		}
 		return UF("bytes_slice_"+sanitizeFile(l)+"_"+sanitizeFile(h), SBytes, v)
 	}
